@@ -53,7 +53,8 @@ Inductive out : Type :=
 
 (* what only the implementation side can observe *)
 Inductive aux : Type :=
-| ANone | AHit | AMiss | ADirect | AClash | AReclaimed | ARefused.
+| ANone | AHit | AMiss | ADirect | AClash | AReclaimed | ARefused
+| AExec.   (* observation only: the method body ran (a miss or a direct call, not told apart) *)
 
 Definition out_eqb (x y : out) : bool :=
   match x, y with
@@ -71,7 +72,7 @@ Fixpoint outs_eqb (l l' : list out) : bool :=
 Definition aux_eqb (x y : aux) : bool :=
   match x, y with
   | ANone, ANone | AHit, AHit | AMiss, AMiss | ADirect, ADirect | AClash, AClash
-  | AReclaimed, AReclaimed | ARefused, ARefused => true
+  | AReclaimed, AReclaimed | ARefused, ARefused | AExec, AExec => true
   | _, _ => false
   end.
 
